@@ -32,7 +32,7 @@ META = {
     "rule": "per-cycle literal stimulus drawn in biased phases (fill, drain, churn, commit-heavy, discard-heavy, "
             "simultaneous strobes) for depth 1..17 and width 1..12",
 }
-TIERS = {"quick": {"runs": 2400, "wall": 70}, "thorough": {"runs": 40000, "wall": 900}}
+TIERS = {"quick": {"runs": 7200, "wall": 70}, "thorough": {"runs": 40000, "wall": 900}}
 
 
 def gen(rng, tier, index):
